@@ -2,6 +2,7 @@ package mon
 
 import (
 	"fmt"
+	"sort"
 	"strings"
 
 	"github.com/go-i2p/common/base32"
@@ -131,6 +132,7 @@ func runC04(c *core.Ctx) {
 	c04Decoders(c)
 	c04KeyConstructors(c)
 	c04Cost(c)
+	c04WellKnownOptions(c)
 }
 
 func checkC04(c *core.Ctx, pc pcase) {
@@ -384,4 +386,72 @@ func c04Decoders(c *core.Ctx) {
 			}
 		})
 	}
+}
+
+// c04WellKnownOptions: the accessors that interpret option values (RouterInfo: router.version,
+// caps, netId; RouterAddress: host, port, caps, s, i, v, mtu, ih0…, iexp0…, itag0…) are fed values
+// from a dictionary of hostile strings — empty components, stray dots and signs, NULs, white space,
+// overlong digits, non-ASCII — inside otherwise well-formed, accepted structures; then every
+// argument-free and one-argument accessor is invoked.
+func c04WellKnownOptions(c *core.Ctx) {
+	riKeys := []string{"router.version", "caps", "netId", "netdb.knownRouters", "netdb.knownLeaseSets", "core.version", "stat_uptime", "family", "family.key", "family.sig"}
+	raKeys := []string{"host", "port", "caps", "s", "i", "v", "mtu", "key", "ih0", "ih1", "ih2", "iexp0", "iexp1", "iexp2", "itag0", "itag1", "itag2"}
+	hostile := func(r *core.Rand) []byte {
+		dict := []string{"", ".", "..", "...", "0", "0.", "0.9", "0.9.", "0.9. ", "0.9.\x00", "0.9.+65", "0.9.-1", "0.9.65", "0.9.65.1", "0.9.99999999999999999999", "1.0.0", "0.10.1", ".9.65", "0..65",
+			"0.9.65-rc", " 0.9.65", "0.9.65\n", "00.09.065", "+0.9.65", "0.9.６５", "a.b.c", "0.9.0x41", "-", "+", " ", "\x00", "\xff\xfe", "٠.٩.٦٥",
+			"f", "fR", "LU", "XfR", "BC", "4", "6", "46", "BC4", "BC6", "PfRD", "K", "G", "E", "\x00R", "R\x00", "2", "-2", "99999999999", "2 ",
+			"1.2.3.4", "::1", "[::1]", "1.2.3.4:80", "fe80::1%eth0", "example.i2p", "localhost", "256.1.1.1", "1.2.3", "01.2.3.4", "1.2.3.4 ", "::ffff:1.2.3.4", "0x7f.1",
+			"1", "65535", "65536", "0", "-1", "+80", "080", "8 0", "80\x00", "1e3", "0x50", "９０", "4294967377",
+			"1500", "1280", "1279", "65536", "-1500"}
+		switch r.Pick(6) {
+		case 0:
+			return r.Bytes(r.Pick(40))
+		case 1:
+			b := []byte(dict[r.Pick(len(dict))])
+			if len(b) > 0 {
+				b[r.Pick(len(b))] = byte(r.Pick(256))
+			}
+			return b
+		case 2:
+			return []byte(rm.B64Encode(r.Bytes([]int{0, 1, 15, 16, 17, 31, 32, 33, 48}[r.Pick(9)])))
+		default:
+			return []byte(dict[r.Pick(len(dict))])
+		}
+	}
+	pick := func(r *core.Rand, keys []string) rm.Mapping {
+		var m rm.Mapping
+		seen := map[string]bool{}
+		for j := 0; j < 1+r.Pick(6); j++ {
+			k := keys[r.Pick(len(keys))]
+			if r.Chance(1, 12) { // a prefix / extension / case variant of a well-known key
+				k = []string{k + "0", k[:len(k)-1], strings.ToUpper(k), k + " ", " " + k}[r.Pick(5)]
+			}
+			if seen[k] {
+				continue
+			}
+			seen[k] = true
+			m.Pairs = append(m.Pairs, rm.Pair{K: []byte(k), V: hostile(r)})
+		}
+		sort.SliceStable(m.Pairs, func(a, b int) bool { return string(m.Pairs[a].K) < string(m.Pairs[b].K) })
+		return m
+	}
+	c.Job("well-known-options", c.N(3000, 60000), func(i int, r *core.Rand) {
+		var in []byte
+		var p *lib.Parser
+		if i%2 == 0 {
+			ri, _ := gen.RouterInfo(r)
+			ri.Options = pick(r, riKeys)
+			for k := range ri.Addrs {
+				if r.Chance(1, 2) {
+					ri.Addrs[k].Options = pick(r, raKeys)
+				}
+			}
+			in, p = ri.Encode(), lib.ByNameCached("router_info.ReadRouterInfo")
+		} else {
+			a := gen.RouterAddress(r)
+			a.Options = pick(r, raKeys)
+			in, p = a.Encode(), lib.ByNameCached("router_address.ReadRouterAddress")
+		}
+		checkC04(c, pcase{p: *p, in: in, class: "well-known-options", shape: gen.Shape{}})
+	})
 }
